@@ -23,7 +23,7 @@ ID = "C18"
 THEOREMS = [
     "C18_count_invariant", "C18_returns_exactly_N", "C18_clean_between_requests",
     "C18_games_queue_empty_between_requests", "C18_ids_distinct", "C18_failure_detected_partial",
-    "C18_fault_leaves_nonzero_exit", "C18_raise_only_on_failure", "C18_swallowed_exception_hangs_refuted",
+    "C18_request_progress", "C18_request_bounded", "C18_fault_leaves_nonzero_exit", "C18_raise_only_on_failure", "C18_swallowed_exception_hangs_refuted",
     "C18_torn_put_hangs_refuted", "C18_dead_lock_holder_stop_hangs_refuted", "C18_stop_terminates_workers",
     "C18_stop_graceful",
 ]
@@ -63,9 +63,11 @@ def scenarios(run):
         S.append(d)
 
     # fixed core (quick and thorough)
-    add("nofault-2w-consecutive", 2, [3, 2, 4], {"kind": "none"})
+    # N > 4*workers (cmd 2w + playing w + games w) makes the parent meet queue.Full while games is full too
+    add("nofault-2w-consecutive", 2, [3, 2, 9], {"kind": "none"})
     add("nofault-4w-12", 4, [12], {"kind": "none"}, sims=4)
-    add("nofault-1w", 1, [1, 4], {"kind": "none"})
+    add("nofault-1w-5-then-6", 1, [5, 6], {"kind": "none"})
+    add("nofault-2w-9", 2, [9], {"kind": "none"})
     add("factory-raises-1w-n1", 1, [1], {"kind": "factory_raise", "which": [0]})
     add("factory-raises-all-2w-n3", 2, [3], {"kind": "factory_raise", "which": [0, 1]})
     add("factory-raises-one-of-3", 3, [5], {"kind": "factory_raise", "which": [0]}, sims=4)
@@ -437,10 +439,17 @@ def oracle(obs):
                             f"with exit codes {r['codes_after']}"))
             elif probe == "sysexit0":
                 pass    # outside the fault model: evidence only
+            elif r.get("dispatch_spin"):
+                out.append((f"hang:dispatch-spin:{kind}", "a request for N games returns exactly N transcripts (it never hangs)",
+                            f"request {ri}: play_many({r['n']}) on {sc['workers']} workers completed no timed get for {sc['bound']} s with "
+                            f"{r.get('outstanding')} games outstanding; the parent is spinning outside games.get(): last operation "
+                            f"{r.get('last_parent_op')} (op, queue, id, repetitions); parent stack {r.get('parent_stack')}; "
+                            f"cmd qsize {r.get('cmd_qsize')}, games qsize {r.get('games_qsize')}; exit codes {r['codes_after']}"))
             else:
                 out.append((f"hang:{kind}", "the request raises an error within bounded time instead of waiting forever",
                             f"request {ri}: play_many({r['n']}) made no progress for {sc['bound']} s; exit codes {r['codes_after']}; "
-                            f"faults fired: {[{k: v for k, v in e.items() if k != 't'} for e in fired]}"))
+                            f"faults fired: {[{k: v for k, v in e.items() if k != 't'} for e in fired]}; parent stack {r.get('parent_stack')}; "
+                            f"cmd qsize {r.get('cmd_qsize')}, games qsize {r.get('games_qsize')}"))
         elif r["outcome"] == "returned":
             ts = r["transcripts"]
             ids = [t["id"] for t in ts]
